@@ -119,10 +119,9 @@ Proof.
   - cbn [render_tok] in H. apply bind_inv_ok in H. destruct H as (ctx & s1 & _ & H).
     eapply render_branches_no_break; eauto.
   - cbn [render_tok] in H. destruct (String.eqb var "" || String.eqb coll ""); [inv_ret H|].
-    apply catch_inv_ok in H. destruct H as [H|(e & s2 & _ & H)]; [|inv_ret H].
     apply bind_inv_ok in H. destruct H as (ctx & s1 & _ & H).
-    apply bind_inv_ok in H. destruct H as (c & s2 & _ & H).
-    apply bind_inv_ok in H. destruct H as (items & s3 & _ & H).
+    destruct (match o_eval orc ctx coll with Ok c0 => py_iter c0 | Exc e => Exc e end) as [items|e];
+      [|inv_ret H].
     eapply render_loop_items_no_break; eauto.
   - inv_ret H.
   - cbn [render_tok] in H. apply bind_inv_ok in H. destruct H as ([] & s1 & _ & H). inv_ret H.
